@@ -279,6 +279,39 @@ def _uniform_case(draw):
             "w_kind": draw(st.sampled_from(["list", "ndarray", "series"]))}
 
 
+def check_distinct_resamples(case):
+    """The n_boot resamples are separate draws: for a metric whose value is a sum of real-valued per-row terms (two
+    different multisets of rows give different values with probability 1) the order statistics of the resampled
+    values - read off as the quantiles at the levels k/(n_boot-1) - are pairwise different.  Resamples that repeat
+    (a seed stream with a short period, pairs of resamples sharing a seed) show as equal neighbours."""
+    from fairlearn.metrics import MetricFrame
+
+    rs = np.random.RandomState(case["seed"])
+    n, B = case["n"], case["n_boot"]
+    yp = rs.uniform(0, 1, size=n)
+    w = rs.uniform(0.5, 2.0, size=n)
+    g = np.arange(n) % case["groups"]
+
+    def wsum(y_true, y_pred, sample_weight):
+        return float(np.sum(np.asarray(sample_weight, dtype=float) * np.asarray(y_pred, dtype=float)))
+
+    qs = [k / (B - 1) for k in range(1, B - 1)]
+    mf = MetricFrame(metrics=wsum, y_true=np.zeros(n), y_pred=yp, sensitive_features=g, sample_params={"sample_weight": w},
+                     n_boot=B, ci_quantiles=qs, random_state=case["mf_seed"])
+    vals = [float(v) for v in mf.overall_ci]
+    M.need(all(b >= a for a, b in zip(vals, vals[1:])), f"overall_ci not non-decreasing in the quantile: {vals}")
+    ties = [(qs[i], vals[i]) for i in range(len(vals) - 1) if vals[i + 1] == vals[i]]
+    M.need(not ties, f"n_boot={B} resamples of n={n} rows: the quantiles at the levels k/(n_boot-1) repeat the value(s) {ties[:3]} - "
+                     f"two resamples drew exactly the same rows (random_state={case['mf_seed']})")
+    return ["nt", f"n_boot={B}"]
+
+
+@st.composite
+def _distinct_case(draw):
+    return {"n": draw(st.integers(30, 80)), "n_boot": draw(st.sampled_from([4, 8, 20, 50, 100])), "groups": draw(st.integers(1, 3)),
+            "seed": draw(st.integers(0, 2**31 - 1)), "mf_seed": draw(st.integers(0, 2**31 - 1))}
+
+
 def check_group_constant(case):
     """Predictions that are constant within each group: whatever rows a resample draws, a group's selection rate
     is its constant, so every by_group_ci entry must be exactly that constant (or NaN when the group was never
@@ -349,6 +382,7 @@ SUBS = [
         floors={"nt": 0.2}),
     Sub("group_constant_predictions", check_group_constant, strategy=_group_constant_case, quick=400, thorough=8000, shards=16,
         floors={"rare_groups>=2": 0.3}),
+    Sub("distinct_resamples", check_distinct_resamples, strategy=_distinct_case, quick=64, thorough=1200, shards=16, shrink_quick=False),
     Sub("uniform_draws", check_uniform_draws, strategy=_uniform_case, quick=96, thorough=1600, shards=16, shrink_quick=False,
         floors={"skewed_sample_weight_present": 0.3}),
 ]
